@@ -117,14 +117,51 @@ def check_masked_calls(ctx, rule, module_names):
     import ast
 
     n = 0
+
+    def local_defs(fnode):
+        """names assigned exactly once (plain `name = expr`) in the function: they can be read through"""
+        count, defs = {}, {}
+        for x in ast.walk(fnode):
+            targets = []
+            if isinstance(x, ast.Assign):
+                for t in x.targets:
+                    targets += [y for y in ast.walk(t) if isinstance(y, ast.Name)]
+                if len(x.targets) == 1 and isinstance(x.targets[0], ast.Name):
+                    defs[x.targets[0].id] = x.value
+            elif isinstance(x, (ast.AugAssign, ast.AnnAssign, ast.For, ast.NamedExpr)):
+                targets += [y for y in ast.walk(x.target) if isinstance(y, ast.Name)]
+            for y in targets:
+                count[y.id] = count.get(y.id, 0) + 1
+        return {k: v for k, v in defs.items() if count.get(k) == 1}
+
+    def expand(e, defs, depth=0):
+        if depth > 6:
+            return e
+
+        class T(ast.NodeTransformer):
+            def visit_Name(self, nd):
+                if isinstance(nd.ctx, ast.Load) and nd.id in defs:
+                    return expand(defs[nd.id], defs, depth + 1)
+                return nd
+
+        import copy as _copy
+
+        return T().visit(_copy.deepcopy(e))
+
     for mn in module_names:
         m = ctx.P.module(mn)
+        owner = {}
+        for fnode in ast.walk(m.tree):
+            if isinstance(fnode, (ast.FunctionDef, ast.AsyncFunctionDef)):
+                for x in ast.walk(fnode):
+                    owner[id(x)] = fnode  # innermost function wins (walk visits outer functions first)
         for node in ast.walk(m.tree):
             if not isinstance(node, ast.Call):
                 continue
             fn = ast.unparse(node.func)
             if fn not in ("np.putmask", "numpy.putmask", "np.place", "numpy.place", "np.piecewise", "numpy.piecewise"):
                 continue
+            defs = local_defs(owner[id(node)]) if id(node) in owner else {}
             n += 1
             where = f"{m.relpath}:{node.lineno}"
             short = fn.split(".")[-1]
@@ -135,7 +172,7 @@ def check_masked_calls(ctx, rule, module_names):
                 continue
             if len(node.args) < 3:
                 continue
-            mask, vals = node.args[1], node.args[2]
+            mask, vals = expand(node.args[1], defs), expand(node.args[2], defs)
             mask_txt = ast.unparse(mask)
             packed = any(isinstance(s, ast.Subscript) and ast.unparse(s.slice) == mask_txt for s in ast.walk(vals))
             scalar = isinstance(vals, ast.Constant) or (isinstance(vals, ast.UnaryOp) and isinstance(vals.operand, ast.Constant))
